@@ -17,6 +17,7 @@ var cmds = map[string]func([]string) int{
 	"b2f-c02": b2f.MainC02,
 	"b2f-c04": b2f.MainC04,
 	"b2f-c05": b2f.MainC05,
+	"b2f-c16": b2f.MainC16,
 	"posrep":  posrep.Main,
 	"url":     urlh.Main,
 }
